@@ -610,6 +610,18 @@ def _final_c19(sim):
                     sim.violate("C19", "cli_handshake", f"bundled client {c.label} printed {c.printed[:1]!r}")
                 if "Disconnected from control server." not in out:
                     sim.violate("C19", "cli_disconnect", f"bundled client {c.label} finished without the disconnect message")
+                # what the bundled client printed must be what the server wrote for its connection, reply by reply
+                ct = next((a for a, b in sim.loop.net.conns if getattr(a, "owner_task", None) is c.task), None)
+                if ct is not None:
+                    writes = [w.decode() for w in ct.peer.writes]
+                    shown = c.printed[2:]
+                    if c.printed and writes and c.printed[0] != "Connected to " + writes[0]:
+                        sim.violate("C19", "cli_handshake", f"bundled client {c.label} printed {c.printed[0]!r}, server sent {writes[0]!r}")
+                    for i, w in enumerate(writes[1:]):
+                        if i < len(shown) and shown[i] != w and shown[i] != "Disconnected from control server.":
+                            sim.violate("C19", "cli_reply", f"bundled client {c.label}: reply {i} printed {shown[i][:50]!r}, server wrote {w[:50]!r}")
+                            break
+                    sim.stats["probe:cli_replies_compared"] += max(0, min(len(shown), len(writes) - 1))
     if not sim.stopped:
         sim.exec_step({"op": "stop"})
         sim.run_to_idle()
